@@ -69,6 +69,7 @@ fn main() {
                     handle_ops: false,
                     meta_ops: !args.iter().any(|a| a == "--no-meta"),
                     refusal_bias: args.iter().any(|a| a == "--refusals"),
+                    meta_heavy: args.iter().any(|a| a == "--meta-heavy"),
                 };
                 let o = if let Some(n) = arg(&args, "--perms") {
                     apigen::perm_campaign(arg_u64(&args, "--seed", 1), n.parse().unwrap(), arg_u64(&args, "--sample", 0), ops, imp)
